@@ -586,11 +586,14 @@ func (p *parser) parseFile() {
 			p.endLoc(loc)
 		case "option":
 			ov := p.parseOptionStmt()
-			if ov.name == "go_package" && ov.isStr {
-				if fd.Options == nil {
-					fd.Options = &descriptorpb.FileOptions{}
-				}
+			goPkg, depr := ov.name == "go_package" && ov.isStr, ov.name == "deprecated" && ov.ident == "true"
+			if (goPkg || depr) && fd.Options == nil {
+				fd.Options = &descriptorpb.FileOptions{}
+			}
+			if goPkg {
 				fd.Options.GoPackage = proto.String(ov.str)
+			} else if depr {
+				fd.Options.Deprecated = proto.Bool(true)
 			}
 		case "message":
 			fd.MessageType = append(fd.MessageType, p.parseMessage([]int32{4, int32(len(fd.MessageType))}))
